@@ -220,6 +220,10 @@ impl<T: RefCnt, Cfg: Config> CaS<T> for HybridStrategy<Cfg> {
             let old = <Self as InnerStrategy<T>>::load(self, storage);
             // Observation of their inequality is enough to make a verdict
             if old.as_ptr() != current.as_raw() {
+                // Release the rejected value while `old` is still an ordinary local: if its
+                // destructor panics, `old` is dropped during the unwinding and gives its debt slot
+                // back (a value being returned would be leaked instead).
+                drop(new);
                 return old;
             }
             // If they are still equal, put the new one in.
